@@ -791,7 +791,7 @@ package consensus
 //@   abstract
 
 //@ func ValidateV2Transaction
-//@   prop C10 C01
+//@   prop C10 C01 C08
 //@   requires ms.base.Network != nil && msWF(*ms)
 //@   requires @sizes len(txn.SiacoinInputs) < NB && len(txn.SiafundInputs) < NB && len(txn.SiafundOutputs) < NB
 //@   requires @after-ephemeral-window cheight(ms.base) >= ms.base.Network.HardforkV2.EphemeralOutputHeight
@@ -802,7 +802,7 @@ package consensus
 //@   ensures @weight result == nil ==> ms.base.V2TransactionWeight(txn) != 0 && ms.base.V2TransactionWeight(txn) <= ms.base.MaxBlockWeight()
 
 //@ func ValidateTransaction
-//@   prop C10 C01
+//@   prop C10 C01 C08
 //@   requires ms.base.Network != nil && msWF(*ms)
 //@   requires @sizes len(txn.SiacoinInputs) < NB && len(txn.SiafundInputs) < NB && len(txn.SiafundOutputs) < NB
 //@   requires @supply-bound scBounded(*ms, ts) && sfBounded(*ms, ts)
